@@ -21,7 +21,7 @@ MANIFEST = {
     "C07": dict(
         technique="Lean 4 proof (PARTIAL): the signal handler as a decision function proved equal to the control-flow skeleton extracted from detail::on_signal on all 512 contexts, its effect on the caller's queue composed with the flush/drain contracts, the start/stop life-cycle as a state machine with an invariant over all operation sequences and an induction over any number of start/stop cycles; process-level crash-point enumeration on the real library (fork per case, real backend thread, real FileSink, real signals, wait status and file read from outside) compared with the model's predictions and checked by the property oracle",
         text="PARTIAL. Machine-checked (Lean 4): (1) detail::on_signal, as extracted statement by statement from SignalHandler.h, makes exactly the calls of the decision function Exit.onSignal on every context (signal, first/later entrant, backend id published or not, on the backend thread or not, logger found or not, re-raise flag); (2) for every signal — in particular SIGSEGV SIGABRT SIGFPE SIGILL SIGINT SIGTERM, which are proved to be exactly the default catchable_signals — raised on a frontend thread that has a logger while a backend started with the handler runs: the notice(s) are enqueued on that thread's own queue behind every earlier statement of that thread (any number of statements, any split into already-written and still-queued = backend idle or busy, any logger level), then flush_log, and only then the default action is restored and the signal re-raised (exit(EXIT_SUCCESS) for SIGINT/SIGTERM), so with the contracts of flush_log (C06) and per-thread FIFO (C03) the destination holds all earlier statements followed by the notice and nothing remains queued; on the backend thread or without a published backend id nothing is logged, flushed or parked and the process ends at once; a later entrant only parks; (3) the life-cycle machine (once-flag, running flag, worker id, the id cached for the signal handler, atexit registrations) keeps an invariant over every sequence of start / start-with-handler / stop / exit; after any number of cycles (induction over the cycle list, each with redundant starts and stops) the next start yields a running backend on a fresh thread; stop on a stopped backend and start on a running one change nothing; exactly one atexit handler per spawned thread (at most one while no stop intervenes); exit stops, drains and joins whatever runs and clears the handler's id; the handler's id is never stale (repair of F23; the unrepaired variant, the un-renewed once-flag, a notice after the flush, no flush, raise without SIG_DFL, SIGTERM re-raised are refuted by witnesses). NOT proved, only enumerated on the real process by harness H4: wait statuses (WIFSIGNALED/WTERMSIG, WEXITSTATUS), the order of atexit handlers and static destructors, the signal mask inherited by the backend thread, pause() and the alarm time-out — runtime behaviour outside a pure model; the drain of _exit itself (all queues and transit buffers empty, sinks flushed) is the theorem of the backend model (exitLoop, separate bundle, audited here when present). Tie: extraction of the handler skeleton, the catchable list, the structure of BackendWorker::run/stop/_exit (leaves only when queues AND transit buffers are empty or the option is off, flushes the sinks before leaving), both Backend::start overloads (call_once on the current flag, mask-spawn-publish-unmask order, one atexit), stop_backend_thread (fresh once_flag), ~ManualBackendWorker, wait_for_queues_to_empty_before_exit = true, with `decide`d obligations; H4 forks a child per case that runs the real backend thread and a real FileSink, 0..3 extra logging threads (finished / alive / still logging), System or Tsc clock, backend busy (1500 statements queued right before) or idle (after a flush), and at every crash point between the main thread's statements performs stop (then restart cycles), return from main, exit, exit from another thread, or a handled signal (raise, kill, real null dereference / division by zero / illegal instruction / abort, on the main or an extra thread), plus signals after stop, without backend, without logger, with re-raise off and a second entrant, on the backend thread, with a Warning-level logger; the parent reads the file and the wait status from outside, the Lean driver recomputes status / notices / is_running / ids / masks from the model, and the oracle checks: every completed statement once and in thread order, in the file already when stop() returns, notice after the signalled thread's last statement, wait status = original signal or exit 0.",
-        note="PARTIAL for the reason above (process-level facts are enumerated, not proved). Sequential model of start/stop (no concurrent start/stop from several threads). Statements of *other* threads at a signal are only checked for order/no duplication (their completeness is C06's ordering premise). Observed and left as is: on_alarm re-raises the stored signal on the thread it runs on; if that thread is stuck inside the handler of that same signal the re-raise stays masked (the alarm cannot end such a process) — second cause of F23, the first (stale backend id after stop) is fixed. Exit paths (return from main, exit(), exit from another thread, SIGINT/SIGTERM through the handler) are taken with every other thread at rest (finished threads joined, alive threads parked outside the library, concurrently logging threads paused): a thread that is inside a log call, makes its first call or ends while exit() destroys the library's singletons is undefined behaviour of the program ([basic.start.term]; seen under load as rare heap-corruption aborts or hangs during ~LoggerManager), not a case of the property; crashes and stop()/start() are exercised with threads in mid-flight. A complaint about how a process ended is reported only if it reproduces in 3 re-runs of the case on its own (otherwise evidence.flaky_cases). A signal on a frontend thread when no valid logger exists is swallowed (handler returns without re-raising); `exit` from the handler on the backend thread would join itself — both outside the property's premise.",
+        note="PARTIAL for the reason above (process-level facts are enumerated, not proved). start/stop are sequential in the life-cycle machine; ONE concurrent situation is modelled step by step (Exit/Stop.lean): a handled signal on a frontend thread while another thread is inside Backend::stop() or the process inside the atexit stop — stop() as its extracted sequence of atomic steps (stop request, wake, join, forget worker id, fresh once-flag, clear the id the handler reads), the backend thread leaving in the background (writes, its last look at the queues, end), the handler in two phases (reads the id / enqueues and waits), every schedule: served at every point before the backend's last look at the queues (C07_signal_during_stop_served, for the order as extracted: Obligations.C07_signal_during_stop_extracted), and EXACTLY there (C07_signal_during_stop_exact) — after that look and until stop() returns the handler hangs and the notice is lost: finding F26 (known_findings.json; reproduced by H4 with a gate sink that holds the backend inside the final flush of _exit: corpus/C07/f26_*.txt). wait_for_queues_to_empty_before_exit is a parameter of stop/exit in the model (LParams.waitOnExit): with it off stop() reads nothing more — destination and queue stay as they were at the stop request, nothing is lost from the queue or reordered, a later start serves the rest (C07_nowait_*); the signal half is proved for both settings (C07_signal_independent_of_wait_option) and H4 runs about half of its signal cases with the option off. Refuted by decide: the SIGINT/SIGTERM branch without flush_log under the option off (seeded C07_m2), the id cleared before stop_backend_thread (seeded C07_m3). Statements of *other* threads at a signal are only checked for order/no duplication (their completeness is C06's ordering premise). Observed and left as is: on_alarm re-raises the stored signal on the thread it runs on; if that thread is stuck inside the handler of that same signal the re-raise stays masked (the alarm cannot end such a process) — second cause of F23, the first (stale backend id after stop) is fixed. Exit paths (return from main, exit(), exit from another thread, SIGINT/SIGTERM through the handler) are taken with every other thread at rest (finished threads joined, alive threads parked outside the library, concurrently logging threads paused): a thread that is inside a log call, makes its first call or ends while exit() destroys the library's singletons is undefined behaviour of the program ([basic.start.term]; seen under load as rare heap-corruption aborts or hangs during ~LoggerManager), not a case of the property; crashes and stop()/start() are exercised with threads in mid-flight. A complaint about how a process ended is reported only if it reproduces in 3 re-runs of the case on its own (otherwise evidence.flaky_cases). A signal on a frontend thread when no valid logger exists is swallowed (handler returns without re-raising); `exit` from the handler on the backend thread would join itself — both outside the property's premise.",
         ref="§5 C07, §3.1 H4, §7 F23"),
 }
 
@@ -377,7 +377,8 @@ def run(prop, tier):
         "PARTIAL: wait status, atexit / static-destructor order, inherited signal masks, pause() and the alarm time-out are run-time behaviour enumerated by H4 on the real process, not proved",
         "flush_log returns only after everything the caller enqueued before is written and flushed (C06) and a thread's statements are delivered in the order it enqueued them (C03): used as the contract of `flush` / of the exit drain in the model (Fe.drain); the drain of BackendWorker::_exit is the theorem of the backend model (exitLoop)",
         "glibc semantics of std::signal (handler installed with the signal itself masked, so a raise inside the handler fires when it returns) and default action 'terminate' for every catchable signal",
-        "start/stop are called sequentially (the model has no concurrent start/stop); thread ids are non-zero and fresh",
+        "start/stop are called sequentially in the life-cycle machine; the one concurrent situation modelled step by step is a handled signal while ANOTHER thread is inside stop() / the atexit stop (Exit/Stop.lean: steps of stop() atomic, sequentially consistent); thread ids are non-zero and fresh",
+        "H4 times a signal against the backend with a gate sink (first sink of the logger) whose write_log / flush_sink block until the harness's condition holds (handler entered + 30 ms, stop requested); the 30 ms are an assumption about how long the handler needs from its entry to its log calls",
         "when exit() runs (return from main, exit(), SIGINT/SIGTERM through the handler) no other thread is inside a call of the library, making its first call or ending — the C++ rule for objects with static storage duration; H4 brings the other threads to rest before these paths",
         "the signalled thread has logged or preallocated before (documented requirement of the signal handler); the signal arrives between two log statements, not inside one",
     ]
